@@ -3,7 +3,7 @@ according to a schedule and record what every call returned, plus a deep snapsho
 object after every call.  No verdicts here: the trace goes to TLC (TracePattern.tla).
 
 Input : {"N": n, "cases": [{"id": i, "x": expr, "sched": [[op, stream, arg], ...]}, ...]}
-        ops: new(s, api)  next(s, how)  take(s, n)  all(s)  list(-)  reset(s);  an op name ending in '?' is only
+        ops: new(s, api)  next(s, how)  take(s, n)  all(s, 'all'|'list')  list(-)  reset(s);  an op name ending in '?' is only
         executed if an earlier take in this case has hit the end of its stream (finite pattern).
 Output: {"traces": [{"id", "x", "n", "snap0", "ev": [{"op", "s", "n", "r": {"k", "v"}, "snap"}]}]}
 values are token lists: [x] number, [LO, ..., LC] list, [TO, ..., TC] tuple."""
@@ -99,6 +99,8 @@ class Builder:
             return lp.Pser(self.items(x['l']), rep(x['r']), x['o'])
         if t == 'place':
             return lp.Place(self.items(x['l']), rep(x['r']), x['o'])
+        if t == 'placep':
+            return lp.Placep(self.items(x['l']), rep(x['r']), x['o'])
         if t == 'pn':
             return fp.Pn(b(x['p']), rep(x['r']))
         if t == 'len':
@@ -343,7 +345,10 @@ def run_case(m, case, n):
                         break
                 r = {'k': kind, 'v': vals}
             elif op == 'all':
-                r = {'k': 'seq', 'v': [enc(v) for v in streams[s][0].all(inval)]}
+                if arg == 'list':       # the iterator protocol on the same stream object
+                    r = {'k': 'seq', 'v': [enc(v) for v in list(streams[s][0])]}
+                else:
+                    r = {'k': 'seq', 'v': [enc(v) for v in streams[s][0].all(inval)]}
             elif op == 'list':
                 r = {'k': 'seq', 'v': [enc(v) for v in list(pat)]}
             elif op == 'reset':
